@@ -4,7 +4,7 @@ from __future__ import annotations
 import ast
 from typing import List, Optional, Set
 
-from ..an import count_on_paths, cut, flows_from_calls, is_method_call, with_flags, yields_at
+from ..an import eq_edge, count_on_paths, cut, flows_from_calls, is_method_call, with_flags, yields_at
 from ..cfg import calls_at, node_exprs
 from ..core import Checker
 from ..loader import Func, norm, walk_expr, walk_own
@@ -101,8 +101,8 @@ def check(ck: Checker) -> None:
         "hash_only": lambda t, lab: isinstance(t.ast, ast.Name) and t.ast.id == "hash_only" and lab == "T",
         "not with_unchanged": lambda t, lab: isinstance(t.ast, ast.Name) and t.ast.id == "with_unchanged" and lab == "F",
         "not unknown": lambda t, lab: isinstance(t.ast, ast.Name) and t.ast.id == "unknown" and lab == "F",
-        "typ == UNCHANGED": lambda t, lab: norm(t.ast) in ("typ == UNCHANGED", "UNCHANGED == typ") and lab == "T",
-        "old entry is a hashed directory": lambda t, lab: norm(t.ast).endswith(".hash_info.isdir") and "old" in norm(t.ast) and lab == "T",
+        "typ == UNCHANGED": lambda t, lab: eq_edge(t, lab, "typ", "UNCHANGED") is True,
+        "old entry is a hashed directory": lambda t, lab: lab == "T" and any(norm(a).endswith(".hash_info.isdir") and "old" in norm(a) for a in [t.ast] + (expand1(ck.prog, fn, t.ast, levels=2) if norm(t.ast).endswith(".isdir") else [])),
     }
     dir_atoms = [t for t in g.nodes.values() if h.id in t.loops and _is_dir_atom(t)]
     ck.floor("C08.descent", len(dir_atoms), 1, "'type == directory' tests")
@@ -127,13 +127,14 @@ def check(ck: Checker) -> None:
                    f"skipping the descent into a directory requires '{name}'",
                    f"the descent into a directory can be skipped without '{name}': changes below that directory would be hidden",
                    witness=g.fmt_path(g.path_to(rr, h.id)) if bad else None, construct=f"shortcut / {name}")
+    lifted_short = with_flags(g, lambda a, lab: a.kind == "test" and any(lit(a, lab) for lit in required.values()), start=h.id)
     for side in ("old", "new"):
         atoms = [t for t in dir_atoms if _is_dir_atom(t, side)]
-        ok = False
-        for t in atoms:
-            tstarts = [d for lab, d in t.succ if lab == "T"]
-            rr = g.reach(tstarts, skip_node=lambda x: x.id in dids, skip_edge=lambda a, l, b: l == "exc")
-            ok = ok or (h.id not in rr)
+        # every way round the loop body that avoids the descent is either the shortcut or crosses
+        # "this side is not a directory" (directly, or through a flag computed from it)
+        lifted_side = with_flags(g, lambda a, lab, side=side: a.kind == "test" and _is_dir_atom(a, side) and lab == "F", start=h.id)
+        rr = g.reach(starts, skip_node=lambda x: x.id in dids, skip_edge=lambda a, l, b, ls=lifted_side: l == "exc" or ls(a, l) or lifted_short(a, l))
+        ok = bool(atoms) and h.id not in rr
         ck.require(ok, "C08.descent", fn, atoms[0] if atoms else h,
                    f"if the {side} side is a directory its level is always descended into",
                    f"no test of the {side} side alone being a directory leads to the descent: a directory on the {side} side only (e.g. directory replaced by a file) is not expanded and its children are lost",
@@ -155,6 +156,28 @@ def check(ck: Checker) -> None:
 def _roots(ck: Checker, fn: Func, g) -> None:
     """Each root is looked up on both sides independently: a root missing on one side must not skip the other."""
     infos = [(n, c) for n in g.nodes.values() for c in calls_at(n) if is_method_call(c, "info") and isinstance(c.func.value, ast.Name) and c.func.value.id in ("old", "new") and len(n.loops) == 1]
+    if len(infos) < 2:
+        # the lookup lives in a helper taking the index as a parameter: it must be called for both sides
+        # and absorb the missing-root error itself, so that one side cannot affect the other
+        n_h = 0
+        for h in fn.module.funcs.values():
+            gh = ck.cfg(h)
+            for hn in gh.nodes.values():
+                for hc in calls_at(hn):
+                    if not (is_method_call(hc, "info") and isinstance(hc.func.value, ast.Name) and h.has_param(hc.func.value.id)):
+                        continue
+                    pname = hc.func.value.id
+                    sites = [c for c in ast.walk(fn.node) if isinstance(c, ast.Call) and any(x.fq == h.fq for x in ck.res.resolve(fn, c))]
+                    sides = {norm(a) for c in sites for a in [get_arg(c, h, pname)] if a is not None}
+                    if not sites:
+                        continue
+                    n_h += len(sides & {"old", "new"})
+                    ck.require({"old", "new"} <= sides, "C08.roots", fn, sites[0], f"{h.name} looks the root up on both sides", f"{h.name} is only called for {sorted(sides)}: roots present on the other side only are dropped from the diff", construct=f"{h.name}(old|new, root)")
+                    excs = [gh.nodes[d] for lab, d in hn.succ if lab == "exc"]
+                    absorbed = bool(excs) and all(x.kind == "handler" for x in excs)
+                    ck.require(absorbed, "C08.roots", h, hn, "a root missing on one side is absorbed inside the per-side helper", f"`{norm(hc)}` can raise out of {h.name}: a root missing on one side aborts the lookup on the other", construct=f"{norm(hc)} / absorbed")
+        ck.floor("C08.roots", n_h, 2, "root lookups (old.info(root) / new.info(root), directly or through a per-side helper)")
+        return
     ck.floor("C08.roots", len(infos), 2, "root lookups (old.info(root) / new.info(root))")
     by_side = {c.func.value.id: n for n, c in infos}
     for side, other in (("old", "new"), ("new", "old")):
@@ -267,11 +290,16 @@ def _renames(ck: Checker) -> None:
                    "rename carries deletion.old and addition.new", f"rename is built from ({norm(old_a) if old_a is not None else None}, {norm(new_a) if new_a is not None else None})", construct=f"{norm(c)} / sides")
         dname = norm(old_a).rsplit(".", 1)[0] if old_a is not None else None
         okpop = False
-        for d in scope_of(fn).get(dname or ""):
-            v = d.value
-            if d.kind == "assign" and isinstance(v, ast.Call) and is_method_call(v, "pop", "popleft"):
+        srcs = [d.value for d in scope_of(fn).get(dname or "") if d.kind == "assign"]
+        if isinstance(old_a, ast.Attribute) and isinstance(old_a.value, ast.Call):
+            srcs.append(old_a.value)  # the pop written in place: Change(RENAME, queue.pop().old, ...)
+        for v in srcs:
+            if isinstance(v, ast.Call) and is_method_call(v, "pop", "popleft"):
                 q = v.func.value
+                alts = []
                 for alt in expand1(prog, fn, q, levels=2):
+                    alts += [alt.body, alt.orelse] if isinstance(alt, ast.IfExp) else [alt]
+                for alt in alts:
                     if isinstance(alt, ast.Call) and is_method_call(alt, "get") and norm(alt.func.value) == table:
                         key = norm(alt.args[0]) if alt.args else ""
                         keyalts = [norm(z) for z in expand1(prog, fn, alt.args[0], levels=2)] if alt.args else []
